@@ -287,6 +287,9 @@ def parse_operand(s):
         return Operand("move", parse_place(s[5:]))
     if s.startswith("const "):
         return Operand("const", parse_const(s[6:]))
+    if re.match(r"^[A-Za-z_<]", s) and "::" in s:
+        # bare function item used as a value (e.g. a parser function passed as an argument)
+        return Operand("const", Const("fnitem", s))
     raise ParseError("operand: " + s)
 
 
@@ -475,6 +478,16 @@ def parse_mir(text):
     n = len(lines)
     while i < n:
         line = lines[i]
+        m1 = re.match(r"^(?:const|static(?: mut)?) (.+?): ([^=]+) = (const .+);$", line)
+        if m1:
+            try:
+                st = Stmt("assign", place=Place(0), rv=Rvalue("use", a=parse_operand(m1.group(3))))
+                f = Function(m1.group(1).strip(), [], m1.group(2).strip(), {}, {0: Block(0, [st], Term("return"), False)}, i + 1)
+                funcs.setdefault(f.name, []).append(f)
+            except ParseError:
+                pass
+            i += 1
+            continue
         if (line.startswith("fn ") or line.startswith("const ") or line.startswith("static ")) and line.endswith("{"):
             hdr = line
             m = re.match(r"^fn (.+)$", hdr)
